@@ -136,7 +136,8 @@ def plan(tier):
                 ('cold_start', 2 * 900),
                 ('sweep2', 60000),
                 ('random', 150000),
-                ('big', 3000)]
+                ('big', 3000),
+                ('windows', 40000), ('refused_then_sent', 40000)]
     return [('sweep1', len(BASES) * SLOT1),
             ('sweep1b', len(BASES) * SLOT1),
             ('base_random', len(BASES) * 250),
@@ -145,10 +146,24 @@ def plan(tier):
             ('cold_start', 2 * 900),
             ('sweep2', 3000 if q else 200000),
             ('random', 2500 if q else 150000),
-            ('big', 60 if q else 3000)]
+            ('big', 60 if q else 3000),
+            ('windows', 1200), ('refused_then_sent', 1500)]
 
 
 def make_case(family, i, rng, tier):
+    if family == 'windows':
+        # what the threads' frames are compressed with: every negotiated
+        # window / take-over combination, messages with repeats further back
+        # than the window, a peer that inflates with exactly what was agreed
+        # (scenario and oracle of C06)
+        from . import C06, _delegate
+        return _delegate.make(C06, 'seeded', rng, tier, 'windows')
+    if family == 'refused_then_sent':
+        # a send that is refused (wrong type, unencodable text, closing
+        # state) between accepted ones: the shared compression context holds
+        # nothing of it (scenario and oracle of C03)
+        from . import C03, _delegate
+        return _delegate.make(C03, 'seeded', rng, tier, 'refused_then_sent')
     if family in ('sweep1', 'sweep1b'):
         b = i // SLOT1
         n, nt = _info(b)
@@ -290,6 +305,12 @@ def make_case(family, i, rng, tier):
 
 
 def execute(case):
+    if case.get('via'):
+        from . import _delegate
+        return _delegate.run(case, 'C11', (
+            'peer_cannot_inflate', 'client_message_corrupt', 'cannot_inflate',
+            'payload_differs', 'wrong_payload', 'not_one_frame',
+            'rewritten_after_partial_write', 'hang', 'escaped'))
     if case.get('cold'):
         from .. import bootstrap
         bootstrap.reset_process_state()
